@@ -70,8 +70,10 @@ def _slots_finder(clazz, fields_set):
     """
     # ... class level
     try:
-        slots = clazz.__slots__
-    except AttributeError:
+        # Only the slots declared by this very class: inherited ones are
+        # handled (and name-mangled) when visiting the parent class
+        slots = clazz.__dict__["__slots__"]
+    except (AttributeError, KeyError):
         pass
     else:
         if isinstance(slots, utils.STRING_TYPES):
